@@ -125,6 +125,12 @@ pub fn extra_templates() -> Vec<(Program, String)> {
     s.extend(exit());
     s.extend([label("fa"), li(A0, 1), j("tail"), label("fb"), li(A0, 2), label("tail"), label("tail2"), addi(A0, A0, 1), ret()]);
     v.push((Program { stmts: s }, "shared-tail-with-two-labels".to_string()));
+    // two temporaries live across one call and read by one instruction: the orbit contains
+    // every pair of t0..t6, so a register set that loses one member in the company of another shows
+    let mut s = vec![label("main"), li(T0, 1), li(T1, 2), call("fa"), inst(Inst::R(ROp::Add, A0, T0, T1)), li(A7, 1), ecall()];
+    s.extend(exit());
+    s.extend([label("fa"), li(A0, 3), ret()]);
+    v.push((Program { stmts: s }, "two-temporaries-read-after-one-call".to_string()));
     v
 }
 
